@@ -25,7 +25,7 @@ LEVEL_TEXT = ("Step-cases with 10^3 particles each: random steep and flat bathym
 LEVEL_NOTE = "Asserted only where |vertical displacement| < h(start cell), as the property states. Trusts the spied W as the diffusion draw (its statistics are C11)."
 RULE = ("case = direct (bathymetry seed, Dz, w, scheme, flow) or e2e (ROMS world, Dz, w). Non-trivial: some particle was reflected at the surface or at the bottom and some particle "
         "changed cell during the step; distinct by parameters.")
-MANDATORY = ["e2e_horizontal_diffusion_too", "e2e_forcing_files_with_other_bathymetry", "e2e_grid_module_ROMS2", "e2e_vtransform1_cells_shallower_than_hc", "reflected_at_surface", "reflected_at_bottom", "changed_cell_same_step", "start_at_surface_or_bottom", "vertical_advection", "vertical_diffusion",
+MANDATORY = ["e2e_second_run_on_rewritten_shallower_files", "e2e_horizontal_diffusion_too", "e2e_forcing_files_with_other_bathymetry", "e2e_grid_module_ROMS2", "e2e_vtransform1_cells_shallower_than_hc", "reflected_at_surface", "reflected_at_bottom", "changed_cell_same_step", "start_at_surface_or_bottom", "vertical_advection", "vertical_diffusion",
              "both_off_untouched", "steps_checked", "e2e_records_checked", "large_displacement_fraction", "e2e_subgrid_off_diagonal", "inactive_particles_reflected", "e2e_inactive_particles"]
 ASSUMPTIONS = ["|displacement| < h of the start cell (larger ones are outside the property)"]
 TIMEOUT = {"quick": 900, "thorough": 3400}
@@ -213,29 +213,50 @@ def _e2e(case, wd, V, sit, cnt):
     if not res.ok:
         V.append(C.viol(f"end-to-end run with vertical motion did not complete: {res.exc}", tb=res.tb[-1200:], **desc))
         return
-    recs = all_records(read_outputs(res.outputs))
-    prev = None
-    for r in recs:
-        cur = {int(p): (float(r.vars["X"][k]), float(r.vars["Y"][k]), float(r.vars["Z"][k])) for k, p in enumerate(r.pid)}
-        if prev is not None:
-            for p, (x, y, z) in cur.items():
-                if p not in prev:
-                    continue
-                hb = H[int(round(prev[p][1])), int(round(prev[p][0]))]
-                if not (0.0 <= prev[p][2] <= hb):
-                    continue  # start depth outside [0, h]: outside the property's quantifier
-                if not (0.0 <= z <= hb + 1e-9):
-                    V.append(C.viol(f"record at {r.time}: pid {p} at depth {z:.6f} m, bottom depth of the cell it occupied when the step began is {hb:.6f} m", **desc))
-                    return
-                if mode == 1 and abs(wv * dt) < hb:
-                    zz = prev[p][2] + wv * dt
-                    ref = -zz if zz < 0 else zz
-                    ref = 2 * hb - ref if ref > hb else ref
-                    if abs(z - ref) > 1e-9 * hb:
-                        V.append(C.viol(f"record at {r.time}: pid {p} depth {z:.9f}, advection by w = {wv} with reflecting boundaries gives {ref:.9f}", **desc))
-                        return
-            _bump(sit, "e2e_records_checked")
-        prev = cur
+    def judge(recs, H, where=""):
+        prev = None
+        for r in recs:
+            cur = {int(p): (float(r.vars["X"][k]), float(r.vars["Y"][k]), float(r.vars["Z"][k])) for k, p in enumerate(r.pid)}
+            if prev is not None:
+                for p, (x, y, z) in cur.items():
+                    if p not in prev:
+                        continue
+                    hb = H[int(round(prev[p][1])), int(round(prev[p][0]))]
+                    if not (0.0 <= prev[p][2] <= hb):
+                        continue  # start depth outside [0, h]: outside the property's quantifier
+                    if not (0.0 <= z <= hb + 1e-9):
+                        V.append(C.viol(f"{where}record at {r.time}: pid {p} at depth {z:.6f} m, bottom depth of the cell it occupied when the step began is {hb:.6f} m", **desc))
+                        return False
+                    if mode == 1 and abs(wv * dt) < hb:
+                        zz = prev[p][2] + wv * dt
+                        ref = -zz if zz < 0 else zz
+                        ref = 2 * hb - ref if ref > hb else ref
+                        if not abs(z - ref) <= 1e-9 * hb:
+                            V.append(C.viol(f"{where}record at {r.time}: pid {p} depth {z:.9f}, advection by w = {wv} with reflecting boundaries gives {ref:.9f}", **desc))
+                            return False
+                _bump(sit, "e2e_records_checked")
+            prev = cur
+        return True
+
+    if not judge(all_records(read_outputs(res.outputs)), H):
+        return
+    if case["idx"] % 4 == 0 and not shallow_v1:
+        # the same paths, rewritten with a shallower bathymetry, and a second run in the same process: the bottom is that of the files as they are now
+        w2 = dict(w, h=dict(kind="random", hmin=hmin, hmax=45.0, seed=case["idx"]))
+        H2 = W.make_h(w2["h"], jmax, imax)
+        pre2 = W.write_world(wd / "world", w2)
+        if [str(f) for f in pre2["files"]] == [str(f) for f in pre["files"]] and str(pre2["gridfile"]) == str(pre["gridfile"]):
+            h2 = H2[np.round(Y).astype(int), np.round(X).astype(int)]
+            Z2 = np.minimum(Z, h2)
+            Z2[5:10] = h2[5:10]
+            run2 = dict(run, release=dict(run["release"], rows=[[start, float(X[k]), float(Y[k]), float(Z2[k])] for k in range(npart)]), output=dict(period=dt, filename="second.nc"))
+            res2, _c2, _w2 = run_scenario(dict(world=None, run=run2), wd, conf_name="second.yaml", world=pre2, tweak=tweak)
+            _bump(sit, "e2e_second_run_on_rewritten_shallower_files")
+            if not res2.ok:
+                V.append(C.viol(f"second run on the rewritten files did not complete: {res2.exc}", tb=res2.tb[-1200:], **desc))
+                return
+            if not judge(all_records(read_outputs(res2.outputs)), H2, "second run in the same process, grid and forcing files rewritten with a shallower bathymetry under the same names: "):
+                return
     _bump(sit, "vertical_diffusion", int(Dz > 0))
     _bump(sit, "vertical_advection", int(mode in (1, 2)))
 
